@@ -447,6 +447,19 @@ func (sa *Safe) binop(fr *frame, st *State, x *ssa.BinOp) AVal {
 	ia, ib := st.linItv(a.Lin), st.linItv(b.Lin)
 	ca, aConst := constOf(st, a.Lin)
 	cb, bConst := constOf(st, b.Lin)
+	if aConst && bConst {
+		// exact folding of bitwise operators on constants
+		switch x.Op {
+		case token.AND:
+			return sa.fit(fr, st, linConst(ca&cb), t, desc)
+		case token.OR:
+			return sa.fit(fr, st, linConst(ca|cb), t, desc)
+		case token.XOR:
+			return sa.fit(fr, st, linConst(ca^cb), t, desc)
+		case token.AND_NOT:
+			return sa.fit(fr, st, linConst(ca&^cb), t, desc)
+		}
+	}
 	switch x.Op {
 	case token.ADD:
 		return sa.fit(fr, st, a.Lin.add(b.Lin, 1), t, desc)
